@@ -173,6 +173,14 @@ func (sc *serverConn) processData(f *DataFrame) error {
 	// with a stream error of type STREAM_CLOSED.
 	id := uint32(f.StreamId)
 	st, ok := sc.streams[id]
+	if !ok || st.state != stateOpen {
+		// The frame is refused, but the peer has debited its session window
+		// for it (it may have been in flight when the stream was closed):
+		// count it and give it back, or the two views of the window diverge.
+		if err := sc.discardData(len(f.Data)); err != nil {
+			return err
+		}
+	}
 	if !ok {
 		state.SpdyErrInvalidDataStream.Inc(1)
 		return StreamError{id, InvalidStream}
@@ -200,6 +208,9 @@ func (sc *serverConn) processData(f *DataFrame) error {
 		// Note: we just treat that as a stream error here
 		state.SpdyErrBadRequest.Inc(1)
 		st.body.CloseWithError(fmt.Errorf("sender tried to send more than declared Content-Length of %d bytes", st.declBodyBytes))
+		if err := sc.discardData(len(data)); err != nil {
+			return err
+		}
 		return StreamError{id, ProtocolError}
 	}
 	if len(data) > 0 {
@@ -211,6 +222,8 @@ func (sc *serverConn) processData(f *DataFrame) error {
 		st.inflow.take(int32(len(data)))
 		wrote, err := st.body.Write(data)
 		if err != nil {
+			// e.g. the handler closed the body: give back what was not stored
+			sc.sendWindowUpdate(nil, len(data)-wrote)
 			state.SpdyErrStreamAlreadyClosed.Inc(1)
 			return StreamError{id, StreamAlreadyClosed}
 		}
@@ -233,6 +246,23 @@ func (sc *serverConn) processData(f *DataFrame) error {
 		st.body.CloseWithError(io.EOF)
 		st.state = stateHalfClosedRemote
 	}
+	return nil
+}
+
+// discardData accounts for the payload of a DATA frame that is not handed to
+// a handler: it is charged to the connection-level receive window and the
+// window is replenished at once.
+func (sc *serverConn) discardData(n int) error {
+	sc.serveG.Check()
+	if n == 0 {
+		return nil
+	}
+	if int(sc.inflow.available()) < n {
+		state.SpdyErrFlowControl.Inc(1)
+		return goAwayFlowError{}
+	}
+	sc.inflow.take(int32(n))
+	sc.sendWindowUpdate(nil, n)
 	return nil
 }
 
